@@ -5,6 +5,7 @@ from .. import terms as T
 from ..evalr import Evaluator, Facts
 from ..spec import bip32 as SP
 from .common import *
+from .common import _split
 from .C01 import check_child_wiring
 
 H = 2 ** 31
@@ -117,6 +118,30 @@ def run(ctx):
                     b, _ = ev.call_function('bip32.PubKeyNode.extended_public_key', [pchild], {'version': ver}, facts=pk_facts)
                     same_term(ob, a, b, 'serialised extended public keys agree', fi.where)
 
+    # hardened children need the private key: a PrvKeyNode object that holds *public* data in its key field (what
+    # PrvKeyNode.parse makes of an extended public key payload: 33 bytes 02/03 || x) must have no private key - else
+    # hardened "derivation" from public data succeeds with x taken as the secret
+    fpk = p.get_function('bip32.PrvKeyNode.private_key')
+    for be in ('secp', 'ecdsa'):
+        with ctx.obligation('C02.NOSECRET', 'PrvKeyNode.private_key on public key data', be, fpk.where) as ob:
+            ev = Evaluator(p, be)
+            ev.explicit_contracts = 1       # the validating library calls become explicit alternatives
+            P = S('P', type='point')
+            node = node_term(PRV, T.sec(P, T.TRUE), tagname='pubdata')
+            v, f = ev.call_function('bip32.PrvKeyNode.private_key', [node])
+            ob.evaluations += 1
+            for cs, leaf in normal_leaves(v):
+                infeasible = False
+                for c in cs:
+                    for x in _split(c):
+                        if x == T.FALSE:
+                            infeasible = True
+                        if T.is_op(x, 'VALID_SK') and T.length_of(x[2]) is not None and T.length_of(x[2]) != 32:
+                            infeasible = True       # the library refuses a scalar that is not 32 bytes long
+                ob.require(infeasible, 'a private node whose key field is a 33-byte public key (02/03 || x) yields a private key: '
+                           'hardened children can then be derived from public data', fpk.where,
+                           found=T.show(leaf, maxdepth=4) + ' when ' + ', '.join(T.show(c, maxdepth=3) for c in cs))
+
     # public derivation must not depend on what was derived from the same node before (shared with C13)
     from . import C13
     sub = ctx.__class__('C02', ctx.tier, ctx.p, ctx.seed)
@@ -125,6 +150,9 @@ def run(ctx):
         if o.rule in ('C13.NOREAD', 'C13.INPLACE'):
             o.rule = 'C02.%s(=C13)' % o.rule.split('.')[1]
             ctx.obligations.append(o)
+    # agreement along sub-paths (the multi-level claim) rests on derive_path being the left fold of ckd on both node kinds
+    from . import C17
+    C17.check_fold(ctx, 'C02.FOLD(=C17)')
     # bulk derivation must not bypass what ckd refuses or computes (hardened refusal, invalid-key refusals)
     from .C01 import check_bulk
     check_bulk(ctx, 'C02.BULK', kinds=('pub',))
